@@ -159,6 +159,49 @@ def corr_goals(ctx, n):
     return goals
 
 
+def theta_validation(ctx):
+    """check_theta / check_fit accept-reject decisions: implementation vs Model.BivCtl with the GENERATED domains"""
+    from fractions import Fraction
+    statusq = biv.generate_q(ctx)
+    badq = {k: v for k, v in statusq.items() if v}
+    for k in statusq:
+        ctx.obligation(f'translate:{k}', k not in badq, 'translation', badq.get(k, ''))
+    if badq or not ctx.compile(['Gen_bivq.v']):
+        return
+    grid = [None, 0.0, -0.0, 1e-9, -1e-9, 0.5, 1.0, 1.0 - 1e-12, 1.0 + 1e-12, 2.0, 8.0, 18.2, -18.2, -1.0, -3.5, 1e6, -1e6,
+            float('inf'), float('-inf')]
+
+    def coq_th(t):
+        if t is None:
+            return 'None'
+        if t == float('inf'):
+            return '(Some PInf)'
+        if t == float('-inf'):
+            return '(Some MInf)'
+        f = Fraction(t)
+        return f'(Some (Fin ({f.numerator} # {f.denominator})))' if f >= 0 else f'(Some (Fin (-({-f.numerator} # {f.denominator}))))'
+    exprs, meta = [], []
+    for fam in FAMS:
+        for t in grid:
+            exprs.append(f'check_fit {fam}_dom {coq_th(t)}')
+            c = implbiv.make(fam, t)
+            try:
+                c.check_fit()
+                r = 'None'
+            except Exception as ex:
+                r = 'Some ' + type(ex).__name__
+            meta.append((fam, t, r))
+    outs = cases.run_vm_cases(ctx, 'Cases_C06_theta', 'From Cop Require Import Model.BivCtl.\nFrom CopRun Require Import Gen_bivq.', exprs,
+                              scope_open='Open Scope Q_scope.')
+    for (fam, t, r), o in zip(meta, outs):
+        ok = (o == r)
+        ctx.obligation(f'corr:check_fit:{fam}:{t}', ok, 'correspondence', f'model {o} vs implementation {r}')
+        ctx.case(('check_fit', fam, str(t)), None)
+        if not ok:
+            ctx.violation(f'corr:check_fit:{fam}', f'{fam}.check_fit() with theta={t}: implementation {r}, model {o}',
+                          {'family': fam, 'theta': t, 'repro': f"from copulas.bivariate import Bivariate\nc=Bivariate(copula_type='{fam}'); c.theta={t!r}\nc.check_fit()\n"})
+
+
 def run(ctx):
     quick = ctx.tier == 'quick'
     status = biv.generate(ctx)
@@ -187,6 +230,7 @@ def run(ctx):
                           {'meta': m, 'coq_error': err[-400:],
                            'repro': repro_cdf(m['fn'].split('_')[0], m['theta'], [(m.get('u', 0.5), m.get('v', 0.5))])
                            if 'u' in m else f"# generator at t={m.get('t')}"}, found=True)
+    theta_validation(ctx)
     found = search(ctx, n_theta=6 if quick else 40, n_pts=300 if quick else 2000)
     ctx.extra['witness_search_hits'] = found
     ctx.assumptions += ['Gumbel at an exact 0 coordinate (IEEE log 0 = -inf) is outside the real-number model; covered only by the implementation-side boundary oracle',
